@@ -133,7 +133,7 @@ def case_table():
     dist("LogNormal", lambda k: D.LogNormal(jnp.array([0.5, -0.25, 0.0]), jnp.array([0.5, 0.75, 1.0])), positive=True)
     dist("MultivariateNormal", lambda k: D.MultivariateNormal(jnp.array([0.5, -0.25, 0.0]), jnp.array([[2.0, 0.3, 0.1], [0.3, 1.0, 0.2], [0.1, 0.2, 1.5]])))
     dist("VmapMixture", lambda k: D.VmapMixture(eqx.filter_vmap(D.Normal)(jnp.array([[0.5, -0.25, 0.0], [1.0, 1.0, -1.0]])), jnp.array([0.3, 0.7])))
-    dist("Transformed", lambda k: D.Transformed(D.StudentT(jnp.array([3.0, 4.0, 5.0])), B.Chain([B.Affine(jnp.ones(3), jnp.array([0.5, 2.0, 1.5])), B.Tanh((3,))])))
+    dist("Transformed", lambda k: D.Transformed(D.StudentT(jnp.array([3.0, 4.0, 5.0])), B.Chain([B.Affine(jnp.ones(3), jnp.array([0.5, 2.0, 1.5])), B.Tanh((3,))])), unit=True)
     dist("Normal+frozen-subtree", lambda k: eqx.tree_at(lambda d: d.bijection, D.Normal(jnp.array([0.5, -0.25, 0.0]), jnp.array([1.5, 0.75, 1.0])),
                                                          replace_fn=w.NonTrainable))
     base = lambda: D.Normal(jnp.zeros(3))
@@ -173,6 +173,8 @@ def make_inputs(name, kind, cs, flags, obj, seed):
             x = np.abs(x) + 0.1
         if flags.get("unit01"):
             x = 1 / (1 + np.exp(-x))
+        if flags.get("unit"):
+            x = np.tanh(x)
         c = None if cs is None else jnp.asarray(r.standard_normal(cs))
         out.append((jnp.asarray(x), jr.PRNGKey(int(r.integers(0, 10**6))), c))
     return out
@@ -270,7 +272,8 @@ def run_case(name, entry, seed, modes=("eager", "jit", "vmap", "flatten", "seria
                 if d:
                     errs.append(("eager", m, f"a repeated call with the same arguments differs: {d}"))
                 main1, main2 = flat(e1)[0], flat(e2)[0]
-                if main1.tobytes() == main2.tobytes() and main1.size and not (flags.get("const_lp") and m == "log_prob"):
+                if (main1.tobytes() == main2.tobytes() and main1.size and np.all(np.isfinite(main1))
+                        and not (flags.get("const_lp") and m == "log_prob")):
                     errs.append(("eager", m, f"two different inputs give the identical result {main1.ravel()[:3]} (stale / memoised value?)"))
             except Exception as e:
                 errs.append(("eager", m, f"repeated call raises {type(e).__name__}: {str(e)[:100]}"))
